@@ -274,12 +274,14 @@ def rejection_sample_helper(
     )
 
     if return_logprobs:
-        samples["ln_likelihood"] = lls[good_samples_idx]
+        # one value per returned row: repeat for each linear-parameter sample
+        samples["ln_likelihood"] = np.repeat(lls[good_samples_idx], n_linear_samples)
 
         with tb.open_file(prior_samples_file, mode="r") as f:
             data = f.root[JokerSamples._hdf5_path]
-            samples["ln_prior"] = data.read_coordinates(
-                full_samples_idx, field="ln_prior"
+            samples["ln_prior"] = np.repeat(
+                data.read_coordinates(full_samples_idx, field="ln_prior"),
+                n_linear_samples,
             )
 
     if return_all_logprobs:
@@ -418,12 +420,16 @@ def iterative_rejection_helper(
 
     # FIXME: copy-pasted from function above
     if return_logprobs:
-        samples["ln_likelihood"] = all_marg_lls[good_samples_idx]
+        # one value per returned row: repeat for each linear-parameter sample
+        samples["ln_likelihood"] = np.repeat(
+            all_marg_lls[good_samples_idx], n_linear_samples
+        )
 
         with tb.open_file(prior_samples_file, mode="r") as f:
             data = f.root[JokerSamples._hdf5_path]
-            samples["ln_prior"] = data.read_coordinates(
-                full_samples_idx, field="ln_prior"
+            samples["ln_prior"] = np.repeat(
+                data.read_coordinates(full_samples_idx, field="ln_prior"),
+                n_linear_samples,
             )
 
     return samples
